@@ -471,6 +471,12 @@ class Histogram1D(ObjectWithBinning, HistogramBase):
     def _kwargs_from_dict(cls, a_dict: Mapping[str, Any]) -> Dict[str, Any]:
         kwargs = HistogramBase._kwargs_from_dict(a_dict)  # type: ignore
         kwargs["binning"] = kwargs.pop("binnings")[0]
+        if "missed" in kwargs:
+            (
+                kwargs["underflow"],
+                kwargs["overflow"],
+                kwargs["inner_missed"],
+            ) = kwargs.pop("missed")
         return kwargs
 
     @classmethod
